@@ -188,7 +188,7 @@ class C05(B.C04):
         return hand_cases(random.Random(5))
 
     def generate(self, rng, tier):
-        n = 200 if tier == "quick" else 2500
+        n = 170 if tier == "quick" else 2500
         cases = []
         for i in range(n):
             cls = B.CLASSES[i % len(B.CLASSES)]
@@ -206,7 +206,7 @@ class C05(B.C04):
         return cases
 
     def search_cases(self, rng, neighbours, rnd):
-        return self.generate(rng, "quick")
+        return self.generate(rng, "quick")[:40]
 
     def run_impl(self, case):
         import random
